@@ -2,14 +2,6 @@
 
 package stats
 
-import "sync/atomic"
-
-// VerifMeanCells returns count and sum of the mean HTTP response time metric.
-func VerifMeanCells() (uint64, uint64) {
-	m := globalStats.MeanHTTPResponseTime
-	return atomic.LoadUint64(&m.count), atomic.LoadUint64(&m.sum)
-}
-
 // VerifTotals returns the monotone totals of the two rate metrics.
 func VerifTotals() (urls, seeds uint64) {
 	return globalStats.URLsCrawled.getTotal(), globalStats.SeedsFinished.getTotal()
